@@ -12,8 +12,8 @@ from .core import hx, codes, ROOT, canon
 from .p_parser import file_bytes
 
 SECS = [None, "", "A", "[A]", "B", "C c", "AB", "[AB]"]       # bare and bracketed forms; names that are prefixes of each other
-KEYS = ["x", "y", "z", "k1", "k2", "k12", "xx"]
-VALS = ["v", "a b", "", "12", "x=y", "v\n w", "true", "No", "v\n w\n\tx y", "0x10", "_none_", "[A]", "100%", "%s%%"]
+KEYS = ["x", "y", "z", "k1", "k2", "k12", "xx", "_none_"]       # (the last one: the text the library uses for unused slots - a key like any other)
+VALS = ["v", "a b", "", "12", "x=y", "v\n w", "true", "No", "v\n w\n\tx y", "0x10", "_none_", "[A]", "100%", "%s%%", "caf\xc3\xa9", "3 \xe2\x82\xac"]
 FILES = ["/f1.conf", "/f2.conf", "/usr/etc/cfg.conf", "/etc/cfg.conf", "/usr/etc/cfg.conf.d/a.conf", "/usr/etc/cfg.conf.d/b.conf",
          "/etc/cfg.conf.d/a.conf", "/etc/cfg.conf.d/c.conf", "/usr/etc/cfg.conf.d/note.txt"]
 # trees of the general econf_readConfig (root prefix = the history's scratch directory): vendor / run / etc with and without a
